@@ -538,6 +538,7 @@ pub fn run_lines(lines: &[String], oracles: bool) -> RunResult {
                                 site.name = format!("{}#{nonce}", site.name);
                             }
                             sys.spec_persisted = sys.spec.clone();
+                            sys.last_pm = serde_json::to_string(&pm).unwrap();
                         }
                         match mode {
                             "keep" => {}
@@ -578,7 +579,17 @@ pub fn run_lines(lines: &[String], oracles: bool) -> RunResult {
                         }
                         let local = if mode == "keep" { local } else { LocalSpans::default() };
                         sys.recv = Some(if cold.is_some() {
-                            TracingEventReceiver::new(pm, ps, local) // no host installed yet
+                            // no host installed yet; the fresh descriptions are interned in ascending id
+                            // order first (a map's iteration order would make the numbering of the
+                            // metadata objects differ from run to run)
+                            dispatcher::with_default(&Dispatch::new(crate::hosts::NoHostYet), || {
+                                let mut warm = TracingEventReceiver::default();
+                                for (id, site) in &sys.spec.known {
+                                    let _ = warm.try_receive(tracing_tunnel::TracingEvent::NewCallSite { id: *id, data: site.to_real_owned() });
+                                }
+                                drop(warm);
+                                TracingEventReceiver::new(pm, ps, local)
+                            })
                         } else {
                             dispatcher::with_default(&sys.dispatch, || TracingEventReceiver::new(pm, ps, local))
                         });
@@ -750,6 +761,17 @@ fn site_values(rng: &mut Rng, site: &Site, max: usize) -> Entries {
     if rng.chance(1, 10) {
         es.push(("not_a_field".into(), Val::Bool(true)));
     }
+    // a hand-built value set lists its fields in any order
+    if es.len() > 1 && rng.chance(1, 4) {
+        if rng.chance(1, 2) {
+            es.reverse();
+        } else {
+            for i in (1..es.len()).rev() {
+                let j = rng.below(i + 1);
+                es.swap(i, j);
+            }
+        }
+    }
     es
 }
 
@@ -790,7 +812,21 @@ impl Guest {
                 }
                 let mt = *rng.pick(&span_sites);
                 self.next_span += 1;
-                let id = self.next_span;
+                // mostly the next id; sometimes any id that is not alive (smaller than earlier ones,
+                // recycled after its span died, far away): ids are opaque to the receiver
+                let id = if rng.chance(1, 4) {
+                    let mut c = match rng.below(3) { 0 => rng.range(1, 12) as u64, 1 => 1000 - self.next_span, _ => self.next_span + 50 };
+                    while self.spans.contains_key(&c) {
+                        c += 1;
+                    }
+                    c
+                } else {
+                    let mut c = self.next_span;
+                    while self.spans.contains_key(&c) {
+                        c += 1;
+                    }
+                    c
+                };
                 let parent = if !alive.is_empty() && rng.chance(1, 3) { Some(*rng.pick(&alive)) } else { None };
                 let values = site_values(rng, &self.sites[&mt], 32);
                 self.spans.insert(id, GSpan { mt, rc: 1, entered: 0 });
@@ -865,9 +901,9 @@ impl Guest {
             4 => Ev::Recorded { id: dead, values: vec![] },
             5 => Ev::FollowsFrom { id: some_alive, follows: dead },
             6 => Ev::FollowsFrom { id: dead, follows: some_alive },
-            7 => { self.next_span += 1; Ev::NewSpan { id: self.next_span, parent: None, mt: 7000 + rng.below(3) as u64, values: vec![] } }
-            8 => { self.next_span += 1; Ev::NewSpan { id: self.next_span, parent: Some(dead), mt: known, values: vec![] } }
-            9 => { self.next_span += 1; Ev::NewSpan { id: self.next_span, parent: None, mt: known, values: many_values(rng.range(33, 40)) } }
+            7 => { self.next_span += 1; while self.spans.contains_key(&self.next_span) { self.next_span += 1; } Ev::NewSpan { id: self.next_span, parent: None, mt: 7000 + rng.below(3) as u64, values: vec![] } }
+            8 => { self.next_span += 1; while self.spans.contains_key(&self.next_span) { self.next_span += 1; } Ev::NewSpan { id: self.next_span, parent: Some(dead), mt: known, values: vec![] } }
+            9 => { self.next_span += 1; while self.spans.contains_key(&self.next_span) { self.next_span += 1; } Ev::NewSpan { id: self.next_span, parent: None, mt: known, values: many_values(rng.range(33, 40)) } }
             10 => Ev::NewEvent { mt: if rng.chance(1, 2) { 7000 } else { known }, parent: Some(dead), values: many_values(if rng.chance(1, 2) { 33 } else { 0 }) },
             _ => Ev::Recorded { id: some_alive, values: many_values(rng.range(33, 40)) },
         };
@@ -1018,6 +1054,7 @@ impl Suite for Receiver {
                             8 if rng.chance(1, 4) => { cold_n += 1; cold_line = format!("h persist cold:{}x{cold_n}", rng.next() % 1_000_000); cold_line.as_str() }
                             8 => *rng.pick(&["h persist keep", "h persist keep", "h persist lose"]),
                             2 | 4 => *rng.pick(&["h discard", "h persist keep", "h persist lose", "h discard"]),
+                            _ if kind == 0 && rng.chance(1, 10) => { cold_n += 1; cold_line = format!("h persist cold:{}y{cold_n}", rng.next() % 1_000_000); cold_line.as_str() }
                             _ => *rng.pick(&["h persist keep", "h persist keep", "h persist lose", "h persist losenew", "h discard"]),
                         };
                         if op == "h discard" {
